@@ -74,16 +74,39 @@ theorem step_keeps (bound : Nat) (s : State) (hinv : Inv bound s) (t : Triple) (
     (hforeign : ∀ f t' p, op = Op.foreign f t' p → t' ≠ t ∧ bound ≤ f)
     (hroom : s.next < bound) :
     proposalByPoint (step s op).1.pool t = some pid ∧ Inv bound (step s op).1 ∧
-    (∀ t0 ops, op = Op.make t0 ops → t0 = t → (step s op).2 = some pid) := by
+    (∀ t0 ops, op = Op.make t0 ops ∨ op = Op.makeFail t0 ops → t0 = t → (step s op).2 = some pid) := by
   cases op with
+  | makeFail t0 ops =>
+    simp only [step]
+    cases hb : proposalByPoint s.pool t0 with
+    | some p0 =>
+      refine ⟨hcur, hinv, ?_⟩
+      intro t1 ops1 heq ht
+      rcases heq with heq | heq
+      · cases heq
+      · injection heq with h1 _; subst h1; subst ht
+        rw [hcur] at hb; injection hb with hb; rw [hb]
+    | none =>
+      have hne : t0 ≠ t := by intro h; rw [h, hcur] at hb; cases hb
+      refine ⟨hcur, ⟨by simp only; omega, ?_⟩, ?_⟩
+      · intro f x hm
+        rcases hinv.2 f x hm with h1 | h1
+        · left; simp only; omega
+        · right; exact h1
+      · intro t1 ops1 heq ht
+        rcases heq with heq | heq
+        · cases heq
+        · injection heq with h1 _; exact absurd (h1 ▸ ht) hne
   | make t0 ops =>
     simp only [step, make]
     cases hb : proposalByPoint s.pool t0 with
     | some p0 =>
       refine ⟨hcur, hinv, ?_⟩
       intro t1 ops1 heq ht
-      injection heq with h1 _; subst h1; subst ht
-      rw [hcur] at hb; injection hb with hb; rw [hb]
+      rcases heq with heq | heq
+      · injection heq with h1 _; subst h1; subst ht
+        rw [hcur] at hb; injection hb with hb; rw [hb]
+      · cases heq
     | none =>
       have hne : t0 ≠ t := by intro h; rw [h, hcur] at hb; cases hb
       have hfresh := lookupN_none_of_fresh bound s hinv hroom
@@ -97,11 +120,13 @@ theorem step_keeps (bound : Nat) (s : State) (hinv : Inv bound s) (t : Triple) (
           · right; exact h1
         · simp at hm; left; simp only; omega
       · intro t1 ops1 heq ht
-        injection heq with h1 _; exact absurd (h1 ▸ ht) hne
+        rcases heq with heq | heq
+        · injection heq with h1 _; exact absurd (h1 ▸ ht) hne
+        · cases heq
   | foreign f t' p =>
     obtain ⟨hne, hbf⟩ := hforeign f t' p rfl
     simp only [step]
-    refine ⟨?_, ?_, by intro t0 ops h; cases h⟩
+    refine ⟨?_, ?_, by intro t0 ops h; rcases h with h | h <;> cases h⟩
     · cases hl : lookupN f s.pool.props with
       | none => exact byPoint_stable_other s.pool t t' f p pid hne hcur hl
       | some x => rw [byPoint_refused s.pool t t' f p x hl]; exact hcur
@@ -131,6 +156,7 @@ def resultsFor (t : Triple) : State → List Op → List Nat
     let r := step s op
     match op, r.2 with
     | Op.make t0 _, some p => if t0 = t then p :: resultsFor t r.1 rest else resultsFor t r.1 rest
+    | Op.makeFail t0 _, some p => if t0 = t then p :: resultsFor t r.1 rest else resultsFor t r.1 rest
     | _, _ => resultsFor t r.1 rest
 
 theorem results_all_eq (bound : Nat) (t : Triple) (pid : Nat) (ops : List Op) : ∀ (s : State),
@@ -154,7 +180,21 @@ theorem results_all_eq (bound : Nat) (t : Triple) (pid : Nat) (ops : List Op) : 
         · subst ht
           simp only [if_true] at hx
           rcases List.mem_cons.mp hx with rfl | hx'
-          · have := hres t0 ops0 rfl rfl; rw [hr] at this; injection this
+          · have := hres t0 ops0 (Or.inl rfl) rfl; rw [hr] at this; injection this
+          · exact ih _ hinv' hk hrest x hx'
+        · simp only [ht, if_false] at hx
+          exact ih _ hinv' hk hrest x hx
+    | makeFail t0 ops0 =>
+      simp only at hx
+      cases hr : (step s (Op.makeFail t0 ops0)).2 with
+      | none => simp only [hr] at hx; exact ih _ hinv' hk hrest x hx
+      | some p =>
+        simp only [hr] at hx
+        by_cases ht : t0 = t
+        · subst ht
+          simp only [if_true] at hx
+          rcases List.mem_cons.mp hx with rfl | hx'
+          · have := hres t0 ops0 (Or.inr rfl) rfl; rw [hr] at this; injection this
           · exact ih _ hinv' hk hrest x hx'
         · simp only [ht, if_false] at hx
           exact ih _ hinv' hk hrest x hx
@@ -185,6 +225,16 @@ theorem make_stable (bound : Nat) (hb : 1 ≤ bound) (t : Triple) (ops : List Op
       -- one step from a state without a pooled proposal for t
       have hinv' : Inv bound (step s op).1 := by
         cases op with
+        | makeFail t0 ops0 =>
+          simp only [step]
+          cases hb0 : proposalByPoint s.pool t0 with
+          | some p0 => exact hinv
+          | none =>
+            refine ⟨by simp only; omega, ?_⟩
+            intro f x hm
+            rcases hinv.2 f x hm with h1 | h1
+            · left; simp only; omega
+            · right; exact h1
         | make t0 ops0 =>
           simp only [step, make]
           cases hb0 : proposalByPoint s.pool t0 with
@@ -217,6 +267,19 @@ theorem make_stable (bound : Nat) (hb : 1 ≤ bound) (t : Triple) (ops : List Op
       | foreign f t' p =>
         simp only [step] at hx hy
         exact ih _ hinv' hrest x hx y hy
+      | makeFail t0 ops0 =>
+        simp only at hx hy
+        by_cases ht : t0 = t
+        · subst ht
+          -- nothing pooled for t: the failing call returns no proposal and leaves the pool as it is
+          have hmk : (step s (Op.makeFail t0 ops0)).2 = none := by simp only [step, hcur]
+          simp only [hmk] at hx hy
+          exact ih _ hinv' hrest x hx y hy
+        · cases hr : (step s (Op.makeFail t0 ops0)).2 with
+          | none => simp only [hr] at hx hy; exact ih _ hinv' hrest x hx y hy
+          | some p =>
+            simp only [hr, ht, if_false] at hx hy
+            exact ih _ hinv' hrest x hx y hy
       | make t0 ops0 =>
         simp only at hx hy
         by_cases ht : t0 = t
@@ -265,12 +328,22 @@ theorem proposal_ops_distinct (limit : Nat) (pass : OpPool.Rec → Bool) (ps : O
     ((OpPool.operationHashes limit pass ps).1.map (·.fact)).Nodup :=
   ⟨(C22.hashes_spec limit pass ps h).2.2.1, (C22.hashes_spec limit pass ps h).2.1⟩
 
+/-- a maker that hands out what it could not store makes a second, different proposal for the position at the next
+    call (seeded change C38-D); the maker as extracted returns the error and then the one stored proposal -/
+theorem unstored_proposal_witness :
+    let t : Triple := ⟨31, 0, 0, 0⟩
+    let a := stepLoose init (.makeFail t [])
+    let b := stepLoose a.1 (.makeFail t [])
+    let c := step init (.makeFail t [])
+    let d := step c.1 (.make t [])
+    a.2 = some 1 ∧ b.2 = some 2 ∧ c.2 = none ∧ d.2 = some 2 := by decide
+
 /-- ✦ facts of the current source: both entry points hold the maker's mutex for the whole call,
-    both paths consult the pool before making; pins. -/
+    both paths consult the pool before making, a proposal that cannot be stored is not handed out; pins. -/
 theorem facts_ok :
     Gen.C38.extractErrors = [] ∧ Gen.C38.makeLocked = true ∧ Gen.C38.preferEmptyLocked = true ∧
-    Gen.C38.pins = Pins.C38 := by
-  refine ⟨by decide, by decide, by decide, by decide⟩
+    Gen.C38.makeReturnsSetProposalError = true ∧ Gen.C38.pins = Pins.C38 := by
+  refine ⟨by decide, by decide, by decide, by decide, by decide⟩
 
 -- non-vacuity: an admissible history with two makes for one triple and a foreign proposal between
 example : Admissible 1000 ⟨5, 0, 0, 1⟩ init
